@@ -5,7 +5,7 @@ import os
 import sys
 import time
 
-EXPLORER_PROPS = ("C01", "C02", "C03", "C04", "C05", "C06", "C07", "C09", "C10", "C11", "C13", "C17", "C20")
+EXPLORER_PROPS = ("C01", "C02", "C03", "C04", "C05", "C06", "C07", "C08", "C09", "C10", "C11", "C13", "C17", "C18", "C20")
 
 ASSUMPTIONS = [
     "JAX, numpy, scipy and the Python runtime are trusted",
@@ -33,6 +33,13 @@ def run_explorer(prop, tier, seed, procs, triage):
             allg.setdefault(v["sig"]["property"], 0)
             allg[v["sig"]["property"]] += 1
         print("violating transitions by property (all monitors):", allg)
+        for op_ in sorted(allg):
+            if op_ == prop:
+                continue
+            for g in report.group_violations(violations, op_)[:12]:
+                print("   OTHER", op_, g["sig"]["clause"], g["sig"]["kind"], g["sig"]["name"], g["sig"]["entry"], g["sig"]["loc"],
+                      g["sig"]["level"], g["sig"]["symptom"], "x", g["count"], "|", str(g["detail"])[:120])
+                print("        ", json.dumps(g["witness"]["history"])[:400])
     code, used, new = report.conclude(prop, groups)
     samples = []
     # a few actual histories (deepest states explored) written out
@@ -56,6 +63,8 @@ def run_explorer(prop, tier, seed, procs, triage):
         "outcome_trees_capped": stats["capped"],
         "skipped_reference_overflow": stats["overflow"],
         "requests_not_enabled": stats["skipped_disabled"],
+        "twin_transitions_compared": stats["twin_compared"],
+        "twin_transitions_skipped": stats["twin_skipped"],
         "distinct_layouts": len(stats["layouts"]),
         "states_with": stats["flags"],
         "distinct_observed_results_per_kind": {k: len(v) for k, v in stats["outcomes"].items()},
